@@ -73,6 +73,8 @@ impl Write for WritableFile {
         self.content.flush()?;
         let mut content = self.content.get_ref().clone();
         swap(&mut content, self.content.get_mut());
+        #[cfg(feature = "verif-hooks")]
+        crate::verif_hooks::yield_point("memfs:publish");
         let mut handle = self.fs.write().unwrap();
         let previous_file = match handle.files.get(&self.destination) {
             Some(file) if file.file_type == VfsFileType::File => file,
@@ -163,6 +165,8 @@ impl Seek for ReadableFile {
 impl FileSystem for MemoryFS {
     fn read_dir(&self, path: &str) -> VfsResult<Box<dyn Iterator<Item = String> + Send>> {
         let prefix = format!("{}/", path);
+        #[cfg(feature = "verif-hooks")]
+        crate::verif_hooks::yield_point("memfs:scan");
         let handle = self.handle.read().unwrap();
         let mut found_directory = None;
         #[allow(clippy::needless_collect)] // need collect to satisfy lifetime requirements
@@ -194,6 +198,8 @@ impl FileSystem for MemoryFS {
 
     fn create_dir(&self, path: &str) -> VfsResult<()> {
         self.ensure_has_parent(path)?;
+        #[cfg(feature = "verif-hooks")]
+        crate::verif_hooks::yield_point("memfs:insert_dir");
         let map = &mut self.handle.write().unwrap().files;
         let entry = map.entry(path.to_string());
         match entry {
@@ -222,6 +228,8 @@ impl FileSystem for MemoryFS {
     fn open_file(&self, path: &str) -> VfsResult<Box<dyn SeekAndRead + Send>> {
         self.set_access_time(path, SystemTime::now())?;
 
+        #[cfg(feature = "verif-hooks")]
+        crate::verif_hooks::yield_point("memfs:get_reader");
         let handle = self.handle.read().unwrap();
         let file = handle.files.get(path).ok_or(VfsErrorKind::FileNotFound)?;
         ensure_file(file)?;
@@ -234,6 +242,8 @@ impl FileSystem for MemoryFS {
     fn create_file(&self, path: &str) -> VfsResult<Box<dyn SeekAndWrite + Send>> {
         self.ensure_has_parent(path)?;
         let content = Arc::new(Vec::<u8>::new());
+        #[cfg(feature = "verif-hooks")]
+        crate::verif_hooks::yield_point("memfs:insert_file");
         let mut handle = self.handle.write().unwrap();
         if let Some(existing) = handle.files.get(path) {
             ensure_file(existing)?;
@@ -258,6 +268,8 @@ impl FileSystem for MemoryFS {
     }
 
     fn append_file(&self, path: &str) -> VfsResult<Box<dyn SeekAndWrite + Send>> {
+        #[cfg(feature = "verif-hooks")]
+        crate::verif_hooks::yield_point("memfs:append_open");
         let handle = self.handle.write().unwrap();
         let file = handle.files.get(path).ok_or(VfsErrorKind::FileNotFound)?;
         ensure_file(file)?;
@@ -272,6 +284,8 @@ impl FileSystem for MemoryFS {
     }
 
     fn metadata(&self, path: &str) -> VfsResult<VfsMetadata> {
+        #[cfg(feature = "verif-hooks")]
+        crate::verif_hooks::yield_point("memfs:metadata");
         let guard = self.handle.read().unwrap();
         let files = &guard.files;
         let file = files.get(path).ok_or(VfsErrorKind::FileNotFound)?;
@@ -285,6 +299,8 @@ impl FileSystem for MemoryFS {
     }
 
     fn set_creation_time(&self, path: &str, time: SystemTime) -> VfsResult<()> {
+        #[cfg(feature = "verif-hooks")]
+        crate::verif_hooks::yield_point("memfs:set_creation");
         let mut guard = self.handle.write().unwrap();
         let files = &mut guard.files;
         let file = files.get_mut(path).ok_or(VfsErrorKind::FileNotFound)?;
@@ -295,6 +311,8 @@ impl FileSystem for MemoryFS {
     }
 
     fn set_modification_time(&self, path: &str, time: SystemTime) -> VfsResult<()> {
+        #[cfg(feature = "verif-hooks")]
+        crate::verif_hooks::yield_point("memfs:set_modification");
         let mut guard = self.handle.write().unwrap();
         let files = &mut guard.files;
         let file = files.get_mut(path).ok_or(VfsErrorKind::FileNotFound)?;
@@ -305,6 +323,8 @@ impl FileSystem for MemoryFS {
     }
 
     fn set_access_time(&self, path: &str, time: SystemTime) -> VfsResult<()> {
+        #[cfg(feature = "verif-hooks")]
+        crate::verif_hooks::yield_point("memfs:set_access");
         let mut guard = self.handle.write().unwrap();
         let files = &mut guard.files;
         let file = files.get_mut(path).ok_or(VfsErrorKind::FileNotFound)?;
@@ -315,10 +335,14 @@ impl FileSystem for MemoryFS {
     }
 
     fn exists(&self, path: &str) -> VfsResult<bool> {
+        #[cfg(feature = "verif-hooks")]
+        crate::verif_hooks::yield_point("memfs:exists");
         Ok(self.handle.read().unwrap().files.contains_key(path))
     }
 
     fn remove_file(&self, path: &str) -> VfsResult<()> {
+        #[cfg(feature = "verif-hooks")]
+        crate::verif_hooks::yield_point("memfs:remove_file");
         let mut handle = self.handle.write().unwrap();
         let file = handle.files.get(path).ok_or(VfsErrorKind::FileNotFound)?;
         ensure_file(file)?;
@@ -333,6 +357,8 @@ impl FileSystem for MemoryFS {
         if self.read_dir(path)?.next().is_some() {
             return Err(VfsErrorKind::Other("Directory to remove is not empty".into()).into());
         }
+        #[cfg(feature = "verif-hooks")]
+        crate::verif_hooks::yield_point("memfs:remove");
         let mut handle = self.handle.write().unwrap();
         handle
             .files
